@@ -462,8 +462,72 @@ def _capturable_helpers(repo, rep):
                          "engine's helper" % (nme, nme))
 
 
+def _engine_lookups(repo, rep):
+    """The converse: objects the generated code fetches from the *template
+    variables* by a fixed name (getname('repeat')) are whatever a template
+    bound to that name, unless the binders reject it."""
+    import textwrap
+    m = repo.modules["chameleon.compiler"]
+    try:
+        rejected = set(repo.const("chameleon.compiler",
+                                  "COMPILER_INTERNALS_OR_DISALLOWED"))
+    except Exception as exc:
+        raise AnalysisError("cannot fold the disallowed names: %s" % exc)
+    found = {}
+    n_frag = 0
+    for q, fn in sorted(repo.funcs.items()):
+        if fn.module is not m:
+            continue
+        for c in ast.walk(fn.node):
+            if not (isinstance(c, ast.Call) and src(c.func) == "template"
+                    and c.args):
+                continue
+            try:
+                text = repo.fold(c.args[0], m)
+            except Exception:
+                continue
+            if not isinstance(text, str):
+                continue
+            try:
+                tree = ast.parse(textwrap.dedent(text))
+            except SyntaxError:
+                try:
+                    tree = ast.parse(textwrap.dedent(text), mode="eval")
+                except SyntaxError:
+                    continue
+            n_frag += 1
+            for x in ast.walk(tree):
+                key = None
+                if isinstance(x, ast.Call) and src(x.func) in (
+                        "getname", "get", "econtext.get") and x.args and \
+                        isinstance(x.args[0], ast.Constant) and \
+                        isinstance(x.args[0].value, str):
+                    key = x.args[0].value
+                elif isinstance(x, ast.Subscript) and \
+                        src(x.value) == "econtext" and isinstance(
+                            x.ctx, ast.Load) and isinstance(
+                                x.slice, ast.Constant) and isinstance(
+                                    x.slice.value, str):
+                    key = x.slice.value
+                if key is not None:
+                    found.setdefault(key, (fn, c.lineno))
+    if n_frag < 40:
+        raise AnalysisError("only %d code fragments found" % n_frag)
+    for key, (fn, ln) in sorted(found.items()):
+        rep.check(key.startswith("__") or key in rejected, "R05.5",
+                  fn.qualname, "the engine object fetched from the template "
+                  "variables under the fixed name '%s' cannot be replaced by "
+                  "a template binding of that name (reserved prefix, or "
+                  "rejected by the binders)" % key,
+                  construct="engine-lookup-capturable:" + key,
+                  where=L.where(fn, ln),
+                  detail="tal:define=\"%s 5\" is accepted and the generated "
+                         "code then calls getname('%s')" % (key, key))
+
+
 def _nametransform_rule(repo, rep):
     _capturable_helpers(repo, rep)
+    _engine_lookups(repo, rep)
     f = repo.func("chameleon.compiler.NameTransform.__call__")
     site = f.qualname
     w = L.where(f)
